@@ -35,8 +35,10 @@ static const char* kTexts[] = {
     "[[[[[[[[[[[[[[[[[[[[[[[[],[],1]",             // 5 deep, overflows the initial node stack, invalid
     "{\"a\":{\"b\":[1,{\"c\":\"d\"}]},\"b\":2}",   // 6 valid, nested
     "{\"a\":\"\\ud800\"}",                         // 7 invalid escape inside a member
+    // 8 an object wider than the default member capacity (16): growth path of the member block, and the size from which a lookup map is kept by CreateMap
+    "{\"k0\":0,\"k1\":1,\"k2\":2,\"k3\":3,\"k4\":4,\"k5\":5,\"k6\":6,\"k7\":7,\"k8\":8,\"k9\":9,\"k10\":10,\"k11\":11,\"k12\":12,\"k13\":13,\"k14\":14,\"k15\":15,\"a\":\"sixteen\",\"k17\":\"x\\ny\"}",
 };
-static const int NTEXT = 8;
+static const int NTEXT = 9;
 static const char* kSchemaTexts[] = {
     "{\"a\":{\"b\":7},\"b\":[true,{\"k\":\"v\"}],\"zz\":1}",  // replaces members, undeclared key
     "[{\"a\":1},\"s\"]",                                        // whole value replaced by an array
@@ -326,6 +328,12 @@ struct DocSim {
       std::string got = d[i]->Dump();
       ref::Result rp = ref::parse(got);
       if (!rp.ok || !ref::identical(rp.v, m[i])) ctx.violation("dump_vs_model", "doc_dump_vs_model", tr, "D%d.Dump() = %s but the model is %s (a copy must be independent of its source)", i, got.c_str(), want.c_str());
+      // every accessor, keyed lookups included (with and without a lookup map): a copy that still refers to memory of
+      // its source serialises correctly and fails only here
+      else {
+        std::string diff = sc::compare(*d[i], m[i]);
+        if (!diff.empty()) ctx.violation("accessor_vs_model", "doc_accessor_vs_model", tr, "D%d: %s", i, diff.c_str());
+      }
     }
     if (!alive[0] && !alive[1]) {
       ref::release(m[0]);
@@ -401,7 +409,7 @@ int main(int argc, char** argv) {
 #endif
   hb::Explorer<DocSim> ex(R, "K_two_docs",
                           "BFS over histories of two documents with a ledger-tracking freeing allocator: menu of " + std::to_string(OP_COUNT) +
-                              " operations (Parse of 8 texts valid/invalid/deep, ParseOnDemand, ParseSchema of 4 texts incl. repeated and invalid, document move-assign / move-construct / Swap, cross-document CopyFrom of the whole document and into a member, node mutations with owned strings / map / self-move, destroy and recreate at any point); after every transition: ledger without double/foreign free, each document's Dump() equals its model (copies independent), and when both documents are gone the ledger is empty and the heap is at its baseline",
+                              " operations (Parse of 9 texts valid/invalid/deep/wide, ParseOnDemand, ParseSchema of 4 texts incl. repeated and invalid, document move-assign / move-construct / Swap, cross-document CopyFrom of the whole document and into a member, node mutations with owned strings / map / self-move, destroy and recreate at any point); after every transition: ledger without double/foreign free, each document's Dump() equals its model (copies independent), and when both documents are gone the ledger is empty and the heap is at its baseline",
                           depth);
   if (args.replay) return ex.replay(args.replay_idx);
   ex.run();
